@@ -1,4 +1,4 @@
-import Amshan.Lemmas.GenCode
+import Amshan.Lemmas.GenCodeHdlc
 /-
   C01 (tie by translation) — the HdlcFrameHeader accessors frame_format, frame_format_type,
   segmentation, frame_length and information_position, mechanically translated from the source, equal
